@@ -187,7 +187,29 @@ def check(env, rep, tier):
         I.no_join_bodies.add(body["id"])
         st = State()
         buf = I.mat(st, prog.ty(body["locals"][1]["ty"]), "buf")
+        scan = {"loops": 0}
+
+        def lhook(I_, ctx, h, head, backs, exits, scan=scan):
+            # the option scan: the loop of the decoder; it is left either with the cursor at the end of the input
+            # or at a payload marker
+            if ctx.body["id"] != body["id"] or ctx.depth != 0:
+                return
+            scan["loops"] += 1
+            for _, e_ in exits:
+                fin = any(str(x).startswith(("phi", "prev")) and e_.entails(Aff.sym(x) - buf.len) for x in list(e_.bounds))
+                e_.ghost["option-scan"] = "finished" if fin else "left-early"
+        I.loop_hooks.append(lhook)
         I, res = run(prog, body, args=[buf], st=st, I=I)
+        n_acc, blind = 0, 0
+        for s, rv in res:
+            if isinstance(rv, EnumV) and list(rv.variants) == [0]:
+                n_acc += 1
+                if s.ghost.get("option-scan") is None:
+                    blind += 1
+        rep.ob("C02.4", "accept-after-option-scan", blind == 0 and n_acc > 0 and scan["loops"] >= 1,
+               "a datagram is accepted on %d of %d paths that never went through the option scan: whatever follows the token "
+               "(options, payload) is dropped from the parsed message, so re-encoding cannot reproduce the input" % (blind, n_acc), site,
+               sample={"rule": "C02.4", "accepting_paths": n_acc, "without_scan": blind})
         P = {f["name"]: i for i, f in enumerate(prog.adts["packet::Packet"]["variants"][0]["fields"])}
         okt = okp = False
         n_ok = 0
